@@ -144,6 +144,31 @@ def generate(repo):
     if not rej:
         lost(G, 'guard_structural_mutation arms')
     out.append('Definition structural_rejects : list string := %s.\n' % coq_list(rej))
+    # ---- guard_update: the payload / structural guards are applied inside a walk over EVERY action
+    gu = fn_body(kml, 'guard_update', G)
+    per_action = False
+    for m in re.finditer(r'for\s+\w+\s+in\s+&?\s*statement\s*\.\s*actions(?:\s*\.\s*iter\(\))?\s*\{|statement\s*\.\s*actions\s*\.\s*iter\(\)\s*\.\s*(?:try_for_each|for_each|all)\s*\(', gu):
+        # brace/paren-match the loop body
+        i = m.end()
+        open_c = gu[i - 1]
+        close_c = '}' if open_c == '{' else ')'
+        depth = 1
+        while i < len(gu) and depth:
+            if gu[i] == open_c:
+                depth += 1
+            elif gu[i] == close_c:
+                depth -= 1
+            i += 1
+        body = gu[m.end():i]
+        if 'guard_immutable_field' in body and 'guard_structural_mutation' in body:
+            per_action = True
+    # anything that picks one action (or a prefix) out of the list instead of walking it
+    picks = sorted(set(re.findall(r'\.\s*(find_map|find|first|last|next|nth|take|skip|position|get)\s*\(', gu)))
+    indexed = ['actions[..]'] if re.search(r'actions\s*\[', gu) else []
+    out.append('(* guard_update walks every UPDATE action with both guards inside the walk; nothing selects a single action *)\n')
+    out.append('Definition guard_update_per_action : bool := %s.\n' % ('true' if per_action else 'false'))
+    out.append('Definition guard_update_action_selectors : list string := %s.\n' % coq_list(picks + indexed))
+
     # ---- upsert identity selector
     up = fn_body(kml, 'upsert_has_stable_identity_selector', G)
     m = re.search(r'\[((?:\s*"[^"]*"\s*,?)+)\]\s*\.iter\(\)\s*\.any', up)
